@@ -205,8 +205,8 @@ def plan(prop, tier):
         def thr_cfg(g, fam, thr):
             return scen.with_bounds(g, fam, passive=True, burst=False, maxData=3, maxTop=1, maxPull=0, thr=thr)
 
-        def progs(pids, data, ends):
-            return [{"pid": p, "data": d, "end": e} for p, d, e in zip(pids, data, ends)]
+        def progs(pids, data, ends, greet=False):
+            return [{"pid": p, "data": d, "end": e, "greet": greet} for p, d, e in zip(pids, data, ends)]
         fams = []
         if prop == "C18":
             for kind in ("merge", "combine"):
@@ -216,6 +216,12 @@ def plan(prop, tier):
                 fams.append((f"thr_{kind}2_fail", thr_cfg(g2, "thr_" + kind, progs([1, 2], [2, 1], ["T", "E"])), None))
                 fams.append((f"thr_{kind}3", thr_cfg(g3, "thr_" + kind, progs([1, 2, 3], [1, 1, 1] if q else [2, 1, 1],
                                                                                ["T", "T", "T"])), None))
+                # the members also greet from their own threads (racing greetings)
+                gl2 = scen.nary(kind, 2, mode="push", late=True)
+                fams.append((f"thr_{kind}2_greet", thr_cfg(gl2, "thr_" + kind, progs([1, 2], [1, 1], ["T", "T"], True)), None))
+                if not q:
+                    gl3 = scen.nary(kind, 3, mode="push", late=True)
+                    fams.append((f"thr_{kind}3_greet", thr_cfg(gl3, "thr_" + kind, progs([1, 2, 3], [1, 1, 1], ["T", "T", "T"], True)), None))
                 if not q:
                     fams.append((f"thr_{kind}3_fail", thr_cfg(g3, "thr_" + kind, progs([1, 2, 3], [1, 1, 1], ["T", "E", "T"])), None))
         else:
